@@ -110,6 +110,9 @@ def readPhase (t : Tables) (parse : ParseExc → Option Nat) (val : ValExc → O
   | .parseFail .ipcError =>
     -- `_read_request` may itself refuse an invalid request batch as RpcError("ProtocolError")
     some (tableResponse t (if t.readWrapsBatchValidation then val .rpcError else parse .ipcError))
+  | .parseFail .stopIteration =>
+    -- a request stream without a batch; `_read_request` may refuse it itself as RpcError("ProtocolError")
+    some (tableResponse t (if t.readWrapsEmptyStream then val .rpcError else parse .stopIteration))
   | .parseFail e => some (tableResponse t (parse e))
   | .badMeta m => some (tableResponse t (val (metaExc m)))
   | .badParams .mismatch => some (tableResponse t (val .typeError))
